@@ -722,10 +722,24 @@ class Symx:
                 return None
             src = st.env.get(so[0]) if so[0] is not None else None
             sname = sa[0]
+            row_idx, row_base = [], None
+            if strip(so[1]).get('k') == 'Index':
+                # the source is an element of a container of containers (a row): keep the row index as a term
+                b_ = so[1]
+                while strip(b_).get('k') == 'Index':
+                    b_ = strip(b_)
+                    row_idx.insert(0, self.sym(b_['idx'], st))
+                    b_ = b_['base']
+                row_base = b_
 
             def rd(ix):
                 if isinstance(src, Arr):
                     return src.read((ix,))
+                if row_base is not None:
+                    bk_ = self.lv_key(row_base) if strip(row_base).get('k') in ('Ref', 'Member') else None
+                    if bk_ is not None and isinstance(st.env.get(bk_), Arr):
+                        return st.env[bk_].read(tuple(row_idx) + (ix,))
+                    return Function(self.lv_name(row_base), real=True)(*(row_idx + [ix]))
                 return Function(sname, real=True)(ix)
             lo, hi = da[1], da[1] + (sb[1] - sa[1])
             if short == 'copy':
